@@ -115,6 +115,7 @@ def gen(rng, tier):
                               "short_writes": rng.random() < 0.3, "checklines": rng.choice([0, 1, 10])},
             "db_delete_at": db_delete_at, "gz_members": rng.choice([1, 1, 2, 3]),
             # what real annotation files carry between their feature lines
+            "failed_update_probe": rng.random() < 0.2,
             "reuse": {"inner": rng.choice(["list", "path", "string"]), "at": rng.randint(1, max(1, n)), "checklines": rng.choice([0, 1, 10])}
             if rng.random() < 0.3 else None,
             "noise": rng.choice([None, None, {"directive": True, "comment": 2, "blank": 3, "tail_blank": True},
@@ -429,6 +430,11 @@ def run(case):
                 if "eof_at" in s:
                     rel = "inside" if s["eof_at"] <= s["checklines"] else "beyond"
                     probes["eof_%s_window" % rel] = 1
+
+        # ---- an update of the reference database fails part-way; the same handle is then used as a data source again
+        if not V and ref is not None and case.get("failed_update_probe"):
+            from sim.probes import failed_update_probe
+            failed_update_probe(w, call, node, "ref", "ref.db", case["fmt"] == "gtf", V, viol, "C13.forms", probes)
 
         # ---- inspect()
         if not V:
